@@ -8,6 +8,7 @@ import (
 	"net"
 	"net/textproto"
 	"net/url"
+	"strings"
 
 	"golang.org/x/tools/go/ssa"
 )
@@ -286,6 +287,60 @@ func (w *World) registerHTTPIntrinsics() {
 				sargs = append(sargs, t)
 			}
 		}
+		// exact composition (net/url's documented algorithm) when only scheme, host, query are
+		// symbolic: no opaque part, user info, fragment or raw path, and a constant path
+		fld := func(name string) Value {
+			for i := 0; i < st.NumFields(); i++ {
+				if st.Field(i).Name() == name {
+					return getAt(u, []int{i})
+				}
+			}
+			return nil
+		}
+		cstr := func(name string) (string, bool) {
+			t, ok := fld(name).(*Term)
+			if !ok {
+				return "", false
+			}
+			return t.strVal()
+		}
+		userNil := true
+		if up, ok := fld("User").(*Pointer); ok && !isNilPtr(up) {
+			userNil = false
+		}
+		opq, ok1 := cstr("Opaque")
+		rp, ok2 := cstr("RawPath")
+		fr, ok3 := cstr("Fragment")
+		pathC, ok4 := cstr("Path")
+		omit, ok5 := fld("OmitHost").(*Term)
+		if ok1 && ok2 && ok3 && ok4 && ok5 && opq == "" && rp == "" && fr == "" && userNil && omit.isFalse() {
+			scheme := fld("Scheme").(*Term)
+			host := fld("Host").(*Term)
+			rawq := fld("RawQuery").(*Term)
+			force := fld("ForceQuery").(*Term)
+			ep := (&url.URL{Path: pathC}).EscapedPath()
+			hostSafe := reStar(reUnion(reRange('a', 'z'), reRange('A', 'Z'), reRange('0', '9'), reLit("-"), reLit("."), reLit("_"), reLit("~"),
+				reLit("!"), reLit("$"), reLit("&"), reLit("'"), reLit("("), reLit(")"), reLit("*"), reLit("+"), reLit(","), reLit(";"), reLit("="),
+				reLit(":"), reLit("["), reLit("]"), reLit("<"), reLit(">"), reLit("\"")))
+			hostEsc := mkIte(mkInRe(host, hostSafe), host, mkUF("url_escape_host", SStr, host))
+			hasScheme := mkNot(mkEq(scheme, mkStr("")))
+			hasHost := mkNot(mkEq(host, mkStr("")))
+			slashes := mkStr("")
+			if ep != "" {
+				slashes = mkStr("//")
+			}
+			auth := mkIte(mkOr(hasScheme, hasHost), mkConcat(mkIte(hasHost, mkStr("//"), slashes), hostEsc), mkStr(""))
+			sep := mkStr("")
+			if ep != "" && ep[0] != '/' {
+				sep = mkIte(hasHost, mkStr("/"), mkStr(""))
+			}
+			dot := mkStr("")
+			if seg, _, _ := stringsCut(ep, "/"); stringsContains(seg, ":") {
+				dot = mkIte(mkOr(hasScheme, hasHost), mkStr(""), mkStr("./"))
+			}
+			query := mkIte(mkOr(force, mkNot(mkEq(rawq, mkStr("")))), mkConcat(mkStr("?"), rawq), mkStr(""))
+			return mkConcat(mkIte(hasScheme, mkConcat(scheme, mkStr(":")), mkStr("")), auth, sep, dot, mkStr(ep), query)
+		}
 		return mkUF("url_String", SStr, sargs...)
 	}
 
@@ -460,3 +515,6 @@ func (w *World) registerHTTPIntrinsics() {
 		return tuple(&Pointer{obj: e.newObject(t, &StructVal{fs}, "url")}, nilIface)
 	}
 }
+
+func stringsCut(s, sep string) (string, string, bool) { return strings.Cut(s, sep) }
+func stringsContains(s, sub string) bool              { return strings.Contains(s, sub) }
